@@ -52,6 +52,9 @@
 (define-fun ekeyOf ((g Str) (id Str) (s Str) (d Str) (l Str) (t Int)) Str (bjoin (scons lit_e (scons g (scons id (scons s (scons d (scons l (scons (byte1 t) snil))))))) sep0))
 (define-fun skeyOf ((g Str) (s Str) (d Str) (id Str) (l Str) (t Int)) Str (bjoin (scons lit_s (scons g (scons s (scons d (scons id (scons l (scons (byte1 t) snil))))))) sep0))
 (define-fun dkeyOf ((g Str) (s Str) (d Str) (id Str) (l Str) (t Int)) Str (bjoin (scons lit_d (scons g (scons d (scons s (scons id (scons l (scons (byte1 t) snil))))))) sep0))
+; per-vertex scan prefixes of the by-source / by-destination indexes (proved equal to SrcEdgePrefix / DstEdgePrefix by lemma keys.layout.prefixes)
+(define-fun spfxOf ((g Str) (v Str)) Str (bjoin (scons lit_s (scons g (scons v (scons (bzero 0) snil)))) sep0))
+(define-fun dpfxOf ((g Str) (v Str)) Str (bjoin (scons lit_d (scons g (scons v (scons (bzero 0) snil)))) sep0))
 ; a join starts with its first component
 (assert (forall ((h Str) (t SL)) (! (hasprefix (bjoin (scons h t) sep0) h) :pattern ((bjoin (scons h t) sep0)))))
 ; second component of a split join (first two components NUL-free)
